@@ -92,6 +92,9 @@ class Opts:
         self.max_rows = 5
         self.partial_poses = True
         self.nested_rigs = False
+        self.min_kp_types = 1        # at least that many keypoints types when keypoints are present
+        self.odd_paths = False       # record paths not in normal form (./x, a//b, a/./b, a/x/../b, a\\b) for lidar / depth
+        self.histories = False       # some datasets are built through a construction history (see build)
         self.feature_types = ['sift', 'r2d2', 'd2_net']
         self.image_pool = 6
         self.cols = None             # points3d columns: 3, 6 or None (random)
@@ -112,6 +115,8 @@ def gen_dataset(rng, opts=None):
     o = opts or Opts()
     style = o.ts_style or rng.choice(['small', 'epoch', 'wide', 'signed'])
     d = {p: None for p in PART_NAMES}
+    if o.histories and rng.random() < 0.35:
+        d['_history'] = 'cached-then-dict-api'
 
     def present(p):
         if p in o.forbid_parts:
@@ -209,7 +214,13 @@ def gen_dataset(rng, opts=None):
                 k = rng.randrange(o.image_pool)
                 ext = {'records_camera': '.jpg', 'records_depth': '.depth', 'records_lidar': '.pcd'}[part]
                 sub = rng.choice(['', 'seq a/', 'cam0/sub.dir/', 'ünï/'])
-                rows[(ts, dev)] = f'{sub}img{k:02d}{ext}'
+                name = f'{sub}img{k:02d}{ext}'
+                if o.odd_paths and part != 'records_camera' and rng.random() < 0.35:
+                    # legal relative paths that are NOT in normal form: the text of the file is the value (only for records
+                    # that carry no features, whose names the library lists from directories in normal form)
+                    sub, tag = rng.choice([('./', 'dot'), ('odd//', 'dbl'), ('odd/./', 'cur'), ('odd/x/../', 'up'), ('odd\\', 'bsl')])
+                    name = f'{sub}img{k:02d}_{tag}{ext}'
+                rows[(ts, dev)] = name
             d[part] = [[ts, dev, p] for (ts, dev), p in rows.items()]
             if part == 'records_camera':
                 images = sorted({p for p in rows.values()})
@@ -254,7 +265,7 @@ def gen_dataset(rng, opts=None):
         kp_types = []
         if present('keypoints'):
             kps = {}
-            for t in rng.sample(o.feature_types, rng.randint(1, len(o.feature_types))):
+            for t in rng.sample(o.feature_types, rng.randint(min(o.min_kp_types, len(o.feature_types)), len(o.feature_types))):
                 ims = sorted(rng.sample(images, rng.randint(1, len(images))))
                 kps[t] = {'dtype': rng.choice(o.dtypes), 'dsize': rng.choice([2, 4, 6]), 'images': ims}
             d['keypoints'] = kps
@@ -363,8 +374,22 @@ def build(d):
                 k.rigs[rid, dev] = mk_pose(p)
     if d.get('trajectories') is not None:
         k.trajectories = kapture.Trajectories()
-        for ts, dev, p in d['trajectories']:
-            k.trajectories[ts, dev] = mk_pose(p)
+        rows = d['trajectories']
+        if d.get('_history') == 'cached-then-dict-api' and len(rows) >= 2:
+            # a dataset in memory has a construction history: here the first half goes through the container's own
+            # item assignment, then the container's derived state is queried (whatever it caches is now filled), and the rest
+            # arrives through the inherited dict interface (`setdefault(ts, {})[dev] = pose`, the idiom of kapture's own
+            # csv loader and of rigs_remove_inplace), which no override sees
+            half = len(rows) // 2
+            for ts, dev, p in rows[:half]:
+                k.trajectories[ts, dev] = mk_pose(p)
+            k.trajectories.timestamps_sorted_list()
+            k.trajectories.timestamp_length()
+            for ts, dev, p in rows[half:]:
+                k.trajectories.setdefault(ts, {})[dev] = mk_pose(p)
+        else:
+            for ts, dev, p in rows:
+                k.trajectories[ts, dev] = mk_pose(p)
     for part, cls in (('records_camera', kapture.RecordsCamera), ('records_depth', kapture.RecordsDepth),
                       ('records_lidar', kapture.RecordsLidar)):
         if d.get(part) is not None:
